@@ -22,3 +22,5 @@ open Pcore.Object
 #print axioms C17_type_inithash_partial
 #print axioms C17_type_inithash_same
 #print axioms C17_type_inithash_constant_undef
+#print axioms C17_instance_closure
+#print axioms C17_assignable_closure
